@@ -609,22 +609,17 @@ func (b *BaseStore) Load(ctx context.Context, amount int) error {
 			}
 
 			// Join keeps the `size` most recent entries and slices out of bounds when the
-			// joined log holds fewer: only hand it a size the joined log can satisfy
-			size := amount
-			if size > 0 {
-				room := oplog.Len()
-				for _, e := range l.GetEntries().Slice() {
-					if _, ok := oplog.Get(e.GetHash()); !ok && e.GetLogID() == oplog.GetID() {
-						room++
-					}
-				}
-				if size > room {
-					size = -1
-				}
+			// joined log holds fewer. How many it will hold cannot be told beforehand (it
+			// takes the entries of l it reaches from l's heads without passing through an
+			// entry the log already has, so ancestors missing below a held entry stay out):
+			// join everything, then cut down only a log that is longer than the limit
+			span.AddEvent("store-heads-joining")
+			_, inErr = oplog.Join(l, -1)
+			if inErr == nil && amount > 0 && oplog.Values().Len() > amount {
+				_, inErr = oplog.Join(l, amount)
 			}
 
-			span.AddEvent("store-heads-joining")
-			if _, inErr = oplog.Join(l, size); inErr != nil {
+			if inErr != nil {
 				span.AddEvent("store-heads-joining-failed")
 				// err = fmt.Errorf("unable to join log: %w", err)
 				// TODO: log
